@@ -7,7 +7,9 @@ import rules_api
 import rules_det
 import rules_entry
 import rules_follow
+import rules_guard
 import rules_wt
+import rules_zero
 import rules_io
 import rules_lock
 import rules_name
@@ -39,6 +41,12 @@ PROPS = {
                        "R-WINDOW (after the window offset is stored, every path to any return, error exits included, passes clear or a successful refill).",
         "not_decided": "equality with a byte vector for all call sequences and buffer sizes (values of pos/cap/offset/total_len across histories); set_len near u64::MAX",
     },
+    "C08": {
+        "rules": [rules_zero.run],
+        "explanation": "R-ZERO: in the function that stores a stream's new length (resize_stream, reached from Stream::set_len), a zero-fill event (a backend write whose data provenance is io::repeat(0) / [0; N], directly or in a direct helper) exists, is controlled only by the comparison new length > old length, and lies on every path from the 'grows' edge of that comparison to the length store (error exits excepted). "
+                       "Alternatively accepted: zeroing on shrink in both chain kinds plus zeroing of newly allocated mini sectors.",
+        "not_decided": "that the bytes are zero and that the zero-filled range is exactly [old, new): values",
+    },
     "C09": {
         "rules": [rules_name.validname, rules_name.norm, rules_name.orient, rules_api.errkind("C09")],
         "explanation": "R-VALIDNAME (must-pass-through, interprocedural): from every DirEntry::new call with a non-constant name, walking up the call graph along the name argument to the public methods, some function validates the name (ok successor of validate_name on data derived from the same parameter dominates the forwarding call; a completed validation loop counts) and no state mutation precedes that validation on the chain. "
@@ -65,6 +73,12 @@ PROPS = {
                        "R-DIRTY: typestate of the dirty marker Stream.flusher - on every path from the arm that took the marker to any return, either the ok successor of the write-back is passed or the marker is stored back; every Ok(n>0) path of Stream::write calls mark_modified. "
                        "R-FLUSHREACH: every Ok path of each link of the flush chain reaches <F as Write>::flush, and Stream::flush writes back first.",
         "not_decided": "no panic/hang after a failed write on half-updated state (C11's question); that the flushed bytes are the accepted bytes (values)",
+    },
+    "C15": {
+        "rules": [rules_guard.make("R-REUSE.consult"), rules_follow.make("R-REUSE"), rules_guard.make("R-CAP")],
+        "explanation": "R-REUSE: (a) every append path of allocate_sector / allocate_mini_sector / allocate_dir_entry is dominated by the 'nothing free' outcome of the free-list query (guard atoms); (b) every free feeds the list (free_sector => set_fat(FREE) + free_sectors.push on all Ok paths; likewise mini sectors; free_chain frees each visited sector); (c) validate rebuilds both lists from exactly the FREE cells. "
+                       "R-CAP: the branch guarding each extension of the mini-stream chain and of the MiniFAT chain has the chain's physical length (Chain::len / num_sectors) in its condition, not only the logical length that shrinks on release.",
+        "not_decided": "that file size is constant from the second repetition of any net-zero cycle (values of the free lists over histories); LIFO order; truncation of the file (the code has none)",
     },
     "C18": {
         "rules": [rules_det.short, rules_det.seekfirst, rules_det.nondet],
